@@ -193,6 +193,8 @@ type ATStmt struct {
 	Form byte
 	// NoCols: a plain INSERT has no column list (INSERT INTO t VALUES (...)): the values follow the table's order
 	NoCols bool
+	// AutoVerb: an INSERT that leaves its AUTO_INCREMENT key to the database is spelled INSERT IGNORE ('i') or REPLACE ('r')
+	AutoVerb byte
 	// Alias: an UPDATE / DELETE gives the table an alias and qualifies every column with it (UPDATE t AS a SET a.c = ...)
 	Alias bool
 	// RevCols: an INSERT / upsert lists its columns (and values) in the opposite order of the table's
@@ -233,6 +235,7 @@ func spellStatements(c *ATCase) {
 			k++
 			st.RevCols = (h+3*k)%3 == 0
 			st.NoCols = (h+5*k)%4 == 1
+			st.AutoVerb = []byte{0, 'i', 'r'}[(h+13*k)%3]
 			st.Alias = (h+11*k)%5 == 2
 			if v := (h + 7*k) % 10; v >= 5 {
 				st.Spell = v - 5 + 1
@@ -431,7 +434,13 @@ func (s *ATStmt) Render(sc *ATSchema) (string, []interface{}, string) {
 		} else if s.Kind == 'Y' && s.Form == 'r' {
 			verb = "REPLACE INTO "
 		}
-		if s.NoCols && s.Kind == 'X' && !rev && s.AutoForm == 0 {
+		if s.Kind == 'X' && s.AutoForm != 0 && s.AutoVerb == 'i' {
+			// the key is left to the database: no row can be in the way, the statement is a plain insert
+			verb = "INSERT IGNORE INTO "
+		} else if s.Kind == 'X' && s.AutoForm != 0 && s.AutoVerb == 'r' {
+			verb = "REPLACE INTO "
+		}
+		if s.NoCols && !rev && s.AutoForm == 0 {
 			o.sb.WriteString(verb + s.tableText(sc) + " VALUES ")
 		} else {
 			o.sb.WriteString(verb + s.tableText(sc) + " (" + strings.Join(names, ", ") + ") VALUES ")
